@@ -5,6 +5,7 @@ Property theorems only (helper lemmas live in Proofs/). Each theorem is about th
 -/
 import Proofs.CivilJdn
 import Proofs.CivilStep
+import Proofs.CivilArith
 namespace Props.C04
 open Model
 
@@ -32,6 +33,49 @@ theorem nextDay_jdn (s : Solar) (n : Int) (hv : s.valid = true) :
 /-- the weekday advances by one per day straight across the switch -/
 theorem week_advances (s r : Solar) (n : Int) (h : r.jdn = s.jdn + n) : r.week = (s.week + n) % 7 :=
   Model.week_nextDay s r n h
+
+/-- stepping −n undoes stepping n; steps compose additively -/
+theorem nextDay_undo (s r : Solar) (n : Int) (hv : s.valid = true) (hy : 1 ≤ s.year) (h : s.nextDay n = some r) (hr : 1 ≤ r.year) :
+    r.nextDay (-n) = some s := Model.nextDay_neg s r n hv hy h hr
+theorem nextDay_additive (s r t : Solar) (a b : Int) (hv : s.valid = true) (hy : 1 ≤ s.year)
+    (h1 : s.nextDay a = some r) (hr : 1 ≤ r.year) (h2 : r.nextDay b = some t) (ht : 1 ≤ t.year) :
+    s.nextDay (a + b) = some t := Model.nextDay_add s r t a b hv hy h1 hr h2 ht
+
+/-- day difference, minute difference and before/after comparisons agree with the same day count -/
+theorem day_difference (s o : Solar) (hs : s.valid = true) (ho : o.valid = true) (hys : 1 ≤ s.year) (hyo : 1 ≤ o.year) :
+    s.subtract o = some (s.jdn - o.jdn) := Model.subtract_eq s o hs ho hys hyo
+theorem minute_difference (s o : Solar) (hs : s.valid = true) (ho : o.valid = true) (hys : 1 ≤ s.year) (hyo : 1 ≤ o.year) :
+    s.subtractMinute o = some ((s.jdn * 1440 + s.hour * 60 + s.minute) - (o.jdn * 1440 + o.hour * 60 + o.minute)) :=
+  Model.subtractMinute_eq s o hs ho hys hyo
+theorem before_iff (s o : Solar) (hs : s.valid = true) (ho : o.valid = true) (hys : 1 ≤ s.year) (hyo : 1 ≤ o.year) :
+    s.isBefore o = true ↔ s.stamp < o.stamp := Model.isBefore_iff s o hs ho hys hyo
+theorem after_iff (s o : Solar) (hs : s.valid = true) (ho : o.valid = true) (hys : 1 ≤ s.year) (hyo : 1 ≤ o.year) :
+    s.isAfter o = true ↔ o.stamp < s.stamp := Model.isAfter_iff s o hs ho hys hyo
+theorem date_order_is_day_order (y m d y' m' d' : Int) (hv : validYmd y m d = true) (hv' : validYmd y' m' d' = true)
+    (hy : 1 ≤ y) (hy' : 1 ≤ y') :
+    jdn y m d < jdn y' m' d' ↔ (y < y' ∨ (y = y' ∧ (m < m' ∨ (m = m' ∧ d < d')))) := Model.jdn_lt_iff_lex y m d y' m' d' hv hv' hy hy'
+
+/-- hour / month / year stepping -/
+theorem hour_step (s : Solar) (hours : Int) (hv : s.valid = true) (hy : 1 ≤ s.year) :
+    ∃ r, s.nextHour hours = some r ∧ r.valid = true ∧ r.stamp = s.stamp + 3600 * hours := Model.nextHour_spec s hours hv hy
+theorem month_step (s : Solar) (n : Int) (hv : s.valid = true) :
+    ∃ r, s.nextMonth n = some r ∧ r.valid = true ∧
+      r.year * 12 + (r.month - 1) = s.year * 12 + (s.month - 1) + n ∧
+      r.hour = s.hour ∧ r.minute = s.minute ∧ r.second = s.second ∧
+      (r.day = s.day ∨ (r.day = daysOfMonth r.year r.month ∧ r.day < s.day) ∨ (r.year = 1582 ∧ r.month = 10 ∧ r.day = s.day + 10)) :=
+  Model.nextMonth_spec s n hv
+theorem year_step (s : Solar) (n : Int) (hv : s.valid = true) :
+    ∃ r, s.nextYear n = some r ∧ r.valid = true ∧ r.year = s.year + n ∧ r.month = s.month ∧
+      r.hour = s.hour ∧ r.minute = s.minute ∧ r.second = s.second ∧
+      (r.day = s.day ∨ (r.month = 2 ∧ r.day = 28 ∧ s.day = 29) ∨ (r.year = 1582 ∧ r.month = 10 ∧ r.day = s.day + 10)) :=
+  Model.nextYear_spec s n hv
+
+/-- any instant given as a Julian Day (exact value n/2^32) converts to a valid date-time within half a second of it -/
+theorem julian_day_total (n : Int) (h : 1721424 * 4294967296 - 2147483648 ≤ n) :
+    ∃ r, fromJD n = some r ∧ r.valid = true ∧ (r.jdNum * 4294967296 - n * 86400).natAbs * 2 ≤ 4294967296 := Model.fromJD_total n h
+/-- a date-time converts to a Julian Day and back without change, for any representation error up to 2^-27 day -/
+theorem julian_day_roundtrip (s : Solar) (hv : s.valid = true) (hy : 1 ≤ s.year) (n : Int)
+    (hn : (n * 86400 - s.jdNum * 4294967296).natAbs ≤ 86400 * 32) : fromJD n = some s := Model.fromJD_near s hv hy n hn
 
 /-- non-vacuity: the hypotheses are met by concrete dates on both sides of the switch -/
 example : (Solar.mk 1582 10 4 23 59 59).valid = true ∧ (Solar.mk 1582 10 4 23 59 59).nextDay 1 = some ⟨1582, 10, 15, 23, 59, 59⟩ := by decide
